@@ -100,7 +100,12 @@ def r2_length_keywords(chk: Check) -> None:
         tests = guard_tests(g, is_anchor_evidence)
         ok = any(all(g.dominated_by_edge(n, tid, "true") for n in nodes) for tid, e in tests if not strip_not(e)[1])
         ok = ok or any(all(g.dominated_by_edge(n, tid, "false") for n in nodes) for tid, e in tests if strip_not(e)[1])
-        unknown_guard = [e for tid, e in guard_tests(g, lambda e: any(isinstance(c, ast.Call) for c in ast.walk(e))) if any(g.dominated_by_edge(n, tid, "true") or g.dominated_by_edge(n, tid, "false") for n in nodes)]
+        def _is_width_fn(c: ast.Call) -> bool:
+            r_ = P.resolve_call(fn, c)
+            return bool(r_ and r_[0] == "func" and any(isinstance(x, ast.Call) and last_attr(x) == "getwidth" for x in ast.walk(r_[1].node)))  # type: ignore[union-attr]
+
+        # a guard that calls something which is neither the anchoredness test nor the (separate) width test is unknown
+        unknown_guard = [e for tid, e in guard_tests(g, lambda e: any(isinstance(c, ast.Call) and not _is_width_fn(c) and not is_anchor_evidence(c) and dotted(c.func) not in ("is_fully_anchored",) for c in ast.walk(e))) if any(g.dominated_by_edge(n, tid, "true") or g.dominated_by_edge(n, tid, "false") for n in nodes)]
         if ok:
             chk.ok("C01.R2", fn, construct, "only when the new pattern is anchored at both ends", fn.loc(d))
         elif unknown_guard and not tests:
